@@ -1,5 +1,5 @@
 """Property -> rule functions."""
-from .rules import safety, codecs, determinism, exhaust
+from .rules import safety, codecs, determinism, exhaust, otl, tables
 
 
 def _scoped(fn, **kw):
@@ -12,6 +12,9 @@ def _scoped(fn, **kw):
 
 
 PROPS = {
+    "C01": [otl.f26_api_conform, otl.f3_schema_wf, otl.f2_conv_pair, tables.f1_fmt_pair] + tables.C01_EXTRA + [safety.f18_fallback, determinism.lazy_independence],
+    "C02": [tables.f1_fmt_pair, otl.f2_conv_pair, otl.f3_schema_wf, codecs.f5_points, codecs.f5_deltas] + tables.C02_EXTRA,
+    "C06": otl.C06,
     "C07": exhaust.ALL_C07 + [_scoped(exhaust.f19_varidx, scope=("subset/",), rule="F19"), _scoped(determinism.f12_set_order, scope=("subset/",), rule="F12-subset")],
     "C08": exhaust.ALL_C08 + [_scoped(exhaust.f19_varidx, scope=("varLib/instancer/",), rule="F19"), _scoped(determinism.f12_set_order, scope=("varLib/instancer/",), rule="F12-instancer")],
     "C15": codecs.ALL,
